@@ -5,8 +5,8 @@ Helper lemmas for C05 (`Props/C05.lean`).
 `propSites ir` — running it under an adapter that refuses every other `(vid, property)` changes
 nothing.  Proved function by function over `Model/Interp.lean`.
 (B) `sites_required`: every call site is in the required-properties list of its vertex, for queries
-with distinct Vids, *except* the sites that come from imported tags / post-filter tag operands
-(`importedSites`), which are the content of the guard.
+with distinct Vids (since the repair of finding F-3 this includes the sites that come from imported
+tags / post-filter tag operands, `importedSites`).
 -/
 import TrustfallModel.Model.Hints
 import TrustfallModel.Proofs.InterpHom
@@ -648,21 +648,12 @@ theorem vertex?_spec {c : Component} {vid : Vid} {v : IRVertex} (h : c.vertex? v
   have := List.find?_some h
   simpa using this
 
-/-- F-3's complement: every context-field tag that a fold imports, and every context-field tag
-operand of a fold's post-filter, names a property that is *also* in the required-properties list of
-its vertex (because it is output there, filtered there, or used as a tag by a filter of a vertex of
-its own component). -/
-def TagsUsedInDefiningComponent (ir : IRQuery) : Prop :=
-  ∀ c ∈ subComps ir.rootComponent, ∀ s ∈ importedSites c, requiredOk ir s.1 s.2 = true
-
-instance (ir : IRQuery) : Decidable (TagsUsedInDefiningComponent ir) :=
-  inferInstanceAs (Decidable (∀ c ∈ subComps ir.rootComponent, ∀ s ∈ importedSites c, requiredOk ir s.1 s.2 = true))
-
 theorem requiredOk_of {ir : IRQuery} {c : Component} {v : IRVertex} {n : Name}
     (hl : locate ir v.vid = some (c, v))
     (h : n ∈ ((c.outputs.filter (fun o => o.vid == v.vid)).map (·.field))
       ++ v.filters.filterMap filterSubject
-      ++ c.vertices.flatMap (fun w => w.filters.filterMap (tagUseOf v.vid))) :
+      ++ c.vertices.flatMap (fun w => w.filters.filterMap (tagUseOf v.vid))
+      ++ c.folds.flatMap (foldTagUses v.vid)) :
     requiredOk ir v.vid n = true := by
   simp only [requiredOk, requiredProps, hl, requiredPropsAt, List.contains_iff_mem, mem_dedupNames]
   exact h
@@ -687,7 +678,7 @@ theorem refSites_required {ir : IRQuery} (hd : VidsDistinct ir) {c : Component}
         subst hvid
         apply requiredOk_of (locate_of_distinct hd hc hvx)
         simp only [List.mem_append, List.mem_flatMap, List.mem_filterMap]
-        refine Or.inr ⟨w, hw, f, hf, ?_⟩
+        refine Or.inl (Or.inr ⟨w, hw, f, hf, ?_⟩)
         simp [tagUseOf, hr]
   · simp at hs
 
@@ -705,10 +696,52 @@ theorem outputSites_required {ir : IRQuery} (hd : VidsDistinct ir) {c : Componen
     rw [← hvid]
     apply requiredOk_of (locate_of_distinct hd hc hvx)
     simp only [List.mem_append, List.mem_map, List.mem_filter]
-    exact Or.inl (Or.inl ⟨o, ⟨ho, by simp [hvid]⟩, by simp⟩)
+    exact Or.inl (Or.inl (Or.inl ⟨o, ⟨ho, by simp [hvid]⟩, by simp⟩))
+
+/-- (since the repair of F-3) the tags a fold imports, and the tag operands of its count filters,
+are in the required-properties list of their vertex -/
+theorem foldTag_required {ir : IRQuery} (hd : VidsDistinct ir) {c : Component}
+    (hc : c ∈ subComps ir.rootComponent) {f : Fold} (hf : f ∈ c.folds) :
+    ∀ s, (s ∈ f.imports.flatMap (importSites c) ∨ s ∈ f.post.flatMap (tagSites c f.fromVid)) →
+      requiredOk ir s.1 s.2 = true := by
+  -- both kinds of site come from a context-field reference of `f.imports ++ postTagRefs f`
+  have key : ∀ r ∈ f.imports ++ postTagRefs f, ∀ s ∈ importSites c r, requiredOk ir s.1 s.2 = true := by
+    intro r hr s hs
+    cases r with
+    | fcount e rv => simp [importSites] at hs
+    | ctx vid field ty =>
+      simp only [importSites] at hs
+      cases hx : c.vertex? vid with
+      | none => simp [hx] at hs
+      | some vx =>
+        simp only [hx, Option.isSome_some, ↓reduceIte, List.mem_singleton] at hs
+        subst hs
+        obtain ⟨hvx, hvid⟩ := vertex?_spec hx
+        subst hvid
+        apply requiredOk_of (locate_of_distinct hd hc hvx)
+        simp only [List.mem_append, List.mem_flatMap]
+        refine Or.inr ⟨f, hf, ?_⟩
+        simp only [foldTagUses, List.mem_filterMap]
+        exact ⟨_, hr, by simp [ctxFieldOf]⟩
+  intro s hs
+  rcases hs with hs | hs
+  · obtain ⟨r, hr, hs⟩ := List.mem_flatMap.mp hs
+    exact key r (List.mem_append.mpr (Or.inl hr)) s hs
+  · obtain ⟨flt, hflt, hs⟩ := List.mem_flatMap.mp hs
+    simp only [tagSites] at hs
+    split at hs
+    · rename_i r hr
+      have hmem : r ∈ postTagRefs f := by
+        simp only [postTagRefs, List.mem_filterMap]
+        exact ⟨flt, hflt, by simp [hr]⟩
+      refine key r (List.mem_append.mpr (Or.inr hmem)) s ?_
+      cases r with
+      | fcount e rv => simp [refSites] at hs
+      | ctx vid field ty => simpa [refSites, importSites] using hs
+    · simp at hs
 
 /-- (B) Every `resolve_property` call site is in the required-properties list of its vertex. -/
-theorem sites_required {ir : IRQuery} (hd : VidsDistinct ir) (hg : TagsUsedInDefiningComponent ir) :
+theorem sites_required {ir : IRQuery} (hd : VidsDistinct ir) :
     ∀ s ∈ propSites ir, requiredOk ir s.1 s.2 = true := by
   intro s hs
   simp only [propSites, List.mem_append, List.mem_flatMap] at hs
@@ -725,14 +758,12 @@ theorem sites_required {ir : IRQuery} (hd : VidsDistinct ir) (hg : TagsUsedInDef
           subst hs
           apply requiredOk_of (locate_of_distinct hd hc hv)
           simp only [List.mem_append, List.mem_filterMap]
-          exact Or.inl (Or.inr ⟨flt, hflt, by simp [filterSubject, hleft]⟩)
+          exact Or.inl (Or.inl (Or.inr ⟨flt, hflt, by simp [filterSubject, hleft]⟩))
       · exact refSites_required hd hc hv hflt s hs
     · simp only [foldSites, List.mem_append] at hs
       rcases hs with (hs | hs) | hs
-      · exact hg c hc s (by
-          rw [importedSites, List.mem_flatMap]; exact ⟨f, hf, List.mem_append.mpr (Or.inl hs)⟩)
-      · exact hg c hc s (by
-          rw [importedSites, List.mem_flatMap]; exact ⟨f, hf, List.mem_append.mpr (Or.inr hs)⟩)
+      · exact foldTag_required hd hc hf s (Or.inl hs)
+      · exact foldTag_required hd hc hf s (Or.inr hs)
       · exact outputSites_required hd (subComps_trans hc (subComps_of_fold hf (mem_subComps_self _))) s hs
 
 end TF.Engine
